@@ -1,0 +1,33 @@
+//go:build verif
+
+package tmlibp2p
+
+// Add-only re-exports for the verification harness (/verif, property C20).
+// Nothing here adds behaviour; without the "verif" build tag this file is not compiled.
+
+import (
+	"context"
+
+	"github.com/gordian-engine/gordian/gexchange"
+	"github.com/gordian-engine/gordian/tm/tmconsensus"
+	pubsub "github.com/libp2p/go-libp2p-pubsub"
+	"github.com/libp2p/go-libp2p/core/peer"
+)
+
+// VerifTopicConsensus is the pubsub topic name used for consensus messages.
+const VerifTopicConsensus = topicConsensus
+
+// VerifExchangeFeedbackToLibp2p calls the unexported feedback mapping.
+func VerifExchangeFeedbackToLibp2p(c *Connection, f gexchange.Feedback) pubsub.ValidationResult {
+	return c.exchangeFeedbackToLibp2p(f)
+}
+
+// VerifConsensusMessageValidator returns the unexported validator wrapper around h.
+func VerifConsensusMessageValidator(c *Connection, h tmconsensus.ConsensusHandler) pubsub.ValidatorEx {
+	return c.libp2pConsensusMessageValidator(h)
+}
+
+// VerifIgnoreMessage calls the unexported default validator.
+func VerifIgnoreMessage(ctx context.Context, id peer.ID, msg *pubsub.Message) pubsub.ValidationResult {
+	return ignoreMessage(ctx, id, msg)
+}
